@@ -19,6 +19,7 @@ ASSUMPTIONS = [
     'complement idioms accepted: np.setdiff1d(U, x), U[U != x], U[~np.isin(U, x)], np.delete(U, i)',
 ]
 FLOOR = 14
+ANALYSED_FLOORS = {'remove_mean_centrings': 4}
 RULE_FLOORS = {'ACC': 3, 'FOLD-SEP': 4}
 
 CN = 'rdm.calc.calc_rdm_crossnobis'
@@ -36,6 +37,7 @@ def run(ctx, obs):
         labels_and_copy(ctx, obs, q)
     distinct_fold_indices(ctx, obs, CN)
     operand_symmetry(ctx, obs, CN)
+    centring_axis(ctx, obs)
     scale_rule.check_return(ctx, obs, SINGLE, {'chan': -1})
     scale_rule.check_value_at_build(ctx, obs, CN, {'chan': -1})
     scale_rule.check_value_at_build(ctx, obs, PCV, {'chan': -1})
@@ -359,3 +361,36 @@ def _abstract_means(e):
     import copy
     t = Tr().visit(copy.deepcopy(e))
     return ast.unparse(t), n[0]
+
+
+def centring_axis(ctx, obs, rule='SIB-axis'):
+    """every `remove_mean` centring in rdm.calc removes, from each pattern (row of the conditions x channels matrix), its mean over
+    channels: axis=1 with keepdims.  The sites are siblings (crossnobis single-precision arm x2, per-fold arm, _parse_input); a
+    site centring along another axis subtracts a per-channel constant, which cancels in every pattern difference - the option
+    silently does nothing there."""
+    prog = ctx.prog
+    sites = []
+    for q, f in sorted(prog.functions.items()):
+        if not q.startswith('rdm.calc.'):
+            continue
+        for g in ast.walk(f.node):
+            if isinstance(g, ast.If) and isinstance(g.test, ast.Name) and g.test.id == 'remove_mean':
+                for s in ast.walk(g):
+                    val = None
+                    if isinstance(s, ast.AugAssign) and isinstance(s.op, ast.Sub):
+                        val = s.value
+                    elif isinstance(s, ast.Assign) and isinstance(s.value, ast.BinOp) and isinstance(s.value.op, ast.Sub):
+                        val = s.value.right
+                    if isinstance(val, ast.Call) and isinstance(val.func, ast.Attribute) and val.func.attr in ('mean', 'nanmean'):
+                        ax = next((k.value for k in val.keywords if k.arg == 'axis'), None)
+                        if ax is None and isinstance(val.func.value, ast.Name) and val.func.value.id in ('np', 'numpy') and len(val.args) > 1:
+                            ax = val.args[1]
+                        elif ax is None and val.args and not (isinstance(val.func.value, ast.Name) and val.func.value.id in ('np', 'numpy')):
+                            ax = val.args[0]
+                        sites.append((q, f, s, ax))
+    obs.analysed['remove_mean_centrings'] = len(sites)
+    for q, f, s, ax in sites:
+        ok = isinstance(ax, ast.Constant) and ax.value in (1, -1)
+        obs.check(ok, rule, q, 'remove_mean subtracts each pattern\'s mean over channels (axis=1)',
+                  f'`{norm(s)[:80]}` centres along axis {norm(ax) if ax is not None else None}: a per-channel offset cancels in every '
+                  f'difference of two patterns, so remove_mean has no effect on this path', '', where(prog, f, s))
